@@ -31,10 +31,10 @@ class C17(Prop):
     gen_names = ("g_mw_", "g_nip11_outer_identity", "g_nip11_inner_identity", "g_nip11_chain", "g_quota_over")
     max_reports = 3
     rule = ("60% stacks of 1..5 of the ten stateless limit middlewares (every kind regularly outermost; limits 1..3, "
-            "created_at limits 30/120/600 s), 40% BuildMiddlewareFromNIP11 documents (nil pointer, no limitation block, "
+            "created_at limits 0/30/120/600 s), 40% BuildMiddlewareFromNIP11 documents (nil pointer, no limitation block, "
             "every subset of the seven limits, a few negative counts), each driven through the real NewSimpleMiddleware "
             "goroutines with 6..14 operations: client EVENT/REQ/COUNT/CLOSE/AUTH with 0..4 filters, per-filter limit "
-            "absent or 0..4, subscription ids of 1..4 bytes, 0..4 tags, content of 0..4 ASCII bytes or 10 bytes, created_at "
+            "absent or 0..4, subscription ids of 1..4 bytes, 0..4 tags, content of 0..4 ASCII bytes, 10 bytes, or 1..2 characters of 2..4 bytes each (limits count bytes), created_at "
             "at now +- limit +- {5,60} s, and in 12% of the events any int64 the implementation can represent: MinInt64, "
             "MinInt64+1, both sides of now-MaxInt64 (where an int64 difference wraps), -2^62, -2^53, now -+ 292 years +- 60 s "
             "(time.Duration saturation), year 1, -2^31-1, -1, 0, 1, 2^31-1, 2^31, 2^32, 2^53, 2^62, MaxInt64-62135596800 and beyond up to MaxInt64; all "
